@@ -422,6 +422,11 @@ class ManagedBSE:
         if 'C02' in O and s.cfg['probe'] and not busy: out.extend(s.probe(st))
         if 'C07' in O and st.gget('resizes') and not st.gget('closed_ret') and not busy:
             out.extend(s.check_resized(st))
+        if 'C09' in O and 'C07' not in O and s.cfg['probe'] and st.gget('resizes') and not st.gget('closed_ret') and not busy \
+                and not set(st.gget('flags', ())) & {'shrink_unused', 'grow_with_surplus'} and not any('fut' in st.threads[t].local for t in s.tasks):
+            # take()/return after a shrink must leave exactly the last max_size usable (histories playing the known C07 roles are left to C07)
+            for v in s.capacity_probe(st, I(st.gget('resizes')[-1]), 'C09'):
+                v['what'] = 'take()/return after resize: ' + v['what']; out.append(v)
         return out
 
     def c07_known(s, st, d):
